@@ -83,6 +83,23 @@ pub fn apply(t: &Trace, m: &Value) -> Vec<u8> {
                 }
             }
         }
+        "atoms" => {
+            // the listed atoms each get the named substitute (same kind for all)
+            let sub = m["sub"].as_str().unwrap_or("");
+            for (k, i) in m["atoms"].as_array().cloned().unwrap_or_default().iter().enumerate() {
+                let i = i.as_u64().unwrap_or(0) as usize;
+                if i >= t.atoms.len() {
+                    continue;
+                }
+                let a = &t.atoms[i];
+                // a substitute that does not exist for this kind of atom falls back to zero bytes
+                let sub = if substitutes_for(a.kind, a.len).contains(&sub) || ["zero", "ones", "random"].contains(&sub) { sub } else { "zero" };
+                let sb = substitute(a.len, sub, m["r"].as_u64().unwrap_or(0).wrapping_add(k as u64), &t.bytes[a.off..a.off + a.len]);
+                if sb.len() == a.len {
+                    b[a.off..a.off + a.len].copy_from_slice(&sb);
+                }
+            }
+        }
         "trunc" => {
             let at = m["at"].as_u64().unwrap() as usize;
             b.truncate(at.min(b.len()));
@@ -231,6 +248,27 @@ pub fn substitute(len: usize, sub: &str, r: u64, orig: &[u8]) -> Vec<u8> {
             }
             b.to_vec()
         }
+        (32, "cancel-sum") => {
+            // two bytes differ from the original by 0x80 each: the byte-wise XOR differences add up
+            // to 0 mod 256 (a hand-rolled "constant-time" comparison that sums differences in a u8
+            // calls the two values equal)
+            let mut b = orig.to_vec();
+            let i = s.usize(30);
+            let j = (i + 1 + s.usize(29)) % 30;
+            b[i] ^= 0x80;
+            b[j] ^= 0x80;
+            b
+        }
+        (32, "cancel-xor") => {
+            // two bytes differ by the same pattern: the XOR of all byte differences is 0
+            let mut b = orig.to_vec();
+            let i = s.usize(30);
+            let j = (i + 1 + s.usize(29)) % 30;
+            let d = 1 + s.usize(255) as u8;
+            b[i] ^= d;
+            b[j] ^= d;
+            b
+        }
         (32, "other") => crate::refc::scb(&crate::refc::rand_scalar(&mut s)).to_vec(),
         (8, "2^63") => (1u64 << 63).to_le_bytes().to_vec(),
         (8, "2^64-1") => u64::MAX.to_le_bytes().to_vec(),
@@ -249,7 +287,7 @@ pub fn substitutes_for(kind: AtomKind, len: usize) -> Vec<&'static str> {
     match (kind, len) {
         (AtomKind::Bytes, 48) => vec!["identity", "offcurve", "nonsub", "low-order-shift", "inf-flag", "inf-junk", "inf-sign", "no-compression-flag", "other", "random"],
         (AtomKind::Bytes, 96) => vec!["identity", "offcurve", "nonsub", "low-order-shift", "inf-flag", "inf-junk", "inf-sign", "no-compression-flag", "other", "random"],
-        (AtomKind::Bytes, 32) => vec!["q", "q+1", "ones", "hibit", "orig+q", "closetag", "closetag+q", "zero", "other"],
+        (AtomKind::Bytes, 32) => vec!["q", "q+1", "ones", "hibit", "orig+q", "closetag", "closetag+q", "zero", "other", "cancel-sum", "cancel-xor"],
         (AtomKind::U64, 8) => vec!["2^63", "2^64-1", "2^63-1", "zero"],
         (AtomKind::I64, 8) => vec!["imin", "imin+1", "2^63-1", "zero"],
         (AtomKind::U8, 1) => vec!["inc", "dec", "ones", "u8:0", "u8:1", "u8:2", "u8:127", "u8:128", "u8:253", "u8:254"],
@@ -270,6 +308,7 @@ pub fn describe(m: &Value) -> String {
         "seqlen" => format!("seqlen->{}{}", m["to"].as_str().unwrap_or("?"), if m["trail"].as_bool().unwrap_or(false) { "+trail" } else { "" }),
         "atom" => format!("atom->{}", m["sub"].as_str().unwrap_or("?")),
         "allatoms" => format!("allatoms[{}]->{}", m["len"].as_u64().unwrap_or(0), m["sub"].as_str().unwrap_or("?")),
+        "atoms" => format!("atoms{}->{}", m["atoms"], m["sub"].as_str().unwrap_or("?")),
         other => other.to_string(),
     }
 }
